@@ -288,14 +288,16 @@ CHECKS = {
         technique="exhaustive enumeration of all interleavings of the "
         "writers' steps with real worker processes driven over pipes "
         "(stateless exploration of process schedules at step granularity)",
-        text="7 writer lists (uneven loads, several splits per writer, idle "
-        "writers, single writer) x every distinct interleaving of steps "
-        "(write_example / context exit), 219 executions quick (fb + "
-        "samples of npz/tfrec), all formats thorough; compared with the "
-        "single_process=True run: canonical metadata tree, iteration "
-        "sequence, full recount, check(), return values in order, "
-        "write-opened paths of workers pairwise disjoint.",
-        note="step granularity; fork start method.",
+        text="7 (10) writer lists (uneven loads, several splits per writer, "
+        "idle writers, single writer) x every distinct interleaving of the "
+        "writers' steps (write_example / context exit) for fb, every third "
+        "for npz/tfrec (all in thorough); plus a finer exploration where "
+        "every file-system effect of a worker inside the dataset (open for "
+        "reading or writing, rename, mkdir) is a step, preemption bound 1 "
+        "(2); compared with the single_process=True run: canonical metadata "
+        "tree, iteration sequence, full recount, check(), return values in "
+        "order, write-opened paths of workers pairwise disjoint.",
+        note="one worker runs at a time (overlap inside a single system call is not modelled); fork start method.",
         design="DESIGN.md section 3 C09"),
 }
 
